@@ -145,13 +145,19 @@ def gen_page(rng, tier):
     if rng.random() < 0.04:
         return ""
     nlines = rng.choice([0, 1, 2, 3, 3, 4, 5, 8, 12, 30 if tier == "thorough" else 16])
+    if rng.random() < 0.03:
+        nlines = rng.choice([40, 70, 130, 300])       # long pages: the header may come late
     lines = [_gen_body_line(rng) for _ in range(nlines)]
+    if lines and rng.random() < 0.04:
+        # a very long line (a buffer / hint / truncation limit would show)
+        k = rng.randrange(len(lines))
+        lines[k] = (lines[k] + " " + "x" * rng.choice([300, 1100, 5000, 9000])).strip()
     # do not let the body accidentally contain a second well-formed header
     lines = [ln for ln in lines if find_header([ln])[0] is None]
     has_header = rng.random() < 0.85
     if has_header:
         pos = rng.randint(0, len(lines))
-        if rng.random() < 0.5:
+        if rng.random() < 0.5 and len(lines) < 40:
             pos = min(pos, 1)
         lines.insert(pos, _gen_header(rng))
         if rng.random() < 0.08:
@@ -261,7 +267,11 @@ def generate(rng, tier, opts=None):
             version = None                   # as zest.releaser may for other pkgs
         used.append(version if version is not None else "")
         steps.append({"name": name, "version": version, "jump": jump, "jump_kind": kind})
-    return {"page": None if missing else page, "start": start, "steps": steps}
+    case = {"page": None if missing else page, "start": start, "steps": steps}
+    if rng.random() < 0.5:
+        # the simulated local zone is not UTC: "today" is the *local* date
+        case["tz_offset"] = rng.choice([-8 * 3600, -5 * 3600, 19800, 13 * 3600, 3600, -3600])
+    return case
 
 
 # --------------------------------------------------------------------------
@@ -440,7 +450,7 @@ def _execute(ctx, case, log, backend_cls):
     rel, path = ctx["rel"], ctx["path"]
     stats = Stats()
     violations = []
-    clock = SimClock(case["start"])
+    clock = SimClock(case["start"], case.get("tz_offset", 0))
     seam = ClockSeam(clock, rel)
     model_page = case["page"]
     first_ts, last_ts = clock.now, clock.now
@@ -459,7 +469,8 @@ def _execute(ctx, case, log, backend_cls):
             data = {"name": st["name"]}
             if st["version"] is not None:
                 data["new_version"] = st["version"]
-            expected, writes = model_update(model_page, st["name"], st["version"], clock.now)
+            expected, writes = model_update(model_page, st["name"], st["version"],
+                                            clock.now + clock.tz_offset)
             shape = header_shape(model_page)
             exc = None
             be.before()
@@ -504,8 +515,10 @@ def _execute(ctx, case, log, backend_cls):
             if writes and not wrote:
                 viol("C20/no-write-when-change-due", f"step {k}", fp)
             if writes:
-                stats.inc("probe.date_" + ("1digit" if model_date(clock.now)[1] == " "
-                                           else "2digit"))
+                stats.inc("probe.date_" + ("1digit" if model_date(clock.now + clock.tz_offset)[1]
+                                           == " " else "2digit"))
+                if model_date(clock.now + clock.tz_offset) != model_date(clock.now):
+                    stats.inc("probe.local_date_differs_from_utc_date")
                 if unclosed:
                     stats.inc("probe.unclosed_handle")
             if violations:
@@ -568,6 +581,10 @@ def minimise(ctx, case, violation):
         lines = split_lines(case["page"])
         lines = core.ddmin(lines, lambda ls: _fails_same(ctx, dict(case, page="".join(ls)), key))
         case["page"] = "".join(lines)
+    if case.get("tz_offset"):
+        t = dict(case, tz_offset=0)
+        if _fails_same(ctx, t, key):
+            case = t
     # 3. zero the jumps where possible
     for i, st in enumerate(case["steps"]):
         if st["jump"]:
@@ -637,7 +654,8 @@ ASSUMPTIONS = [
     "pages are LF-terminated ASCII as the property's quantifier states; versions contain "
     "no double quote and no newline; when a page carries two header-shaped lines (8% of "
     "pages with a header) 'the header line' is the first one, as in roff",
-    "the simulated zone is UTC and the C locale's month abbreviations apply",
+    "the simulated local zone is UTC or a fixed offset (half of the runs); 'today' is the "
+    "local date; the C locale's month abbreviations apply",
     "torn / partial writes are not injected: the property promises no atomicity",
     "the date written is the simulated wall-clock date at the invocation that changes "
     "the version (format: day without leading zero, abbreviated month, 4-digit year)",
